@@ -179,7 +179,8 @@ CHECKS["C10"] = dict(
     level_note="Only clean runs are judged (failing or timing-dependent runs are counted and skipped). Tool-call units are exercised in C17. Parallel overlap is produced by gates and observed (label gated-bodies-overlapped); the interleaving inside the framework is the Go scheduler's.",
     rule="rapid draws a GraphSpec, paradigm, handler supply plan and release order; non-trivial = (>= 2 designated handlers on top-level nodes, >= 2 gated bodies observed waiting at the same time, per-call handlers in >= 2 options) or (Stream paradigm with a full handler closing its copy early and >= 2 executions); distinct = FNV-1a of case JSON",
     assumptions=GRAPH_ASSUME,
-    parts=[rapid_part("rapid", "compose", "TestC10", 1500, 96000, race=True, replay_test="TestC10Replay", replay_reps=5)],
+    parts=[rapid_part("rapid", "compose", "TestC10", 1500, 96000, race=True, replay_test="TestC10Replay", replay_reps=5),
+           rapid_part("tools", "compose", "TestC10Tools", 1000, 30000, race=True, replay_test="TestC10ToolsReplay", replay_reps=3)],
 )
 
 CHECKS["C11"] = dict(
